@@ -68,13 +68,21 @@ theorem seqInv_init (n mh : Nat) (L : Node → List RAd) : SeqInv (init n mh L) 
 theorem seq_step_mono (s : Net) (op : Op) (x : Node) : (s.nodes x).seq ≤ ((step s op).nodes x).seq := by
   cases op with
   | connect a b => simp only [step, stepCore]; split <;> exact Nat.le_refl _
+  | disconnect a b =>
+    simp only [step, stepCore]; split
+    · simp only [setNode_nodes]; split
+      · rename_i hx; subst hx; exact Nat.le_refl _
+      · split
+        · rename_i hx; subst hx; exact Nat.le_refl _
+        · exact Nat.le_refl _
+    · exact Nat.le_refl _
   | replay a b ord =>
     simp only [step, stepCore]; split
     · simp only [setNode_nodes]; split
       · rename_i hx; subst hx; simp
       · exact Nat.le_refl _
     · exact Nat.le_refl _
-  | announce a =>
+  | announce a _ =>
     simp only [step, stepCore]; split
     · simp only [setNode_nodes]; split
       · rename_i hx; subst hx; simp
@@ -125,13 +133,21 @@ theorem seen_step {s : Net} {op : Op} {x : Node} {k : Node × Nat} (h : k ∈ ((
     k ∈ (s.nodes x).seen ∨ ∃ f, f ∈ s.flight ∧ k = (f.adv.origin, f.adv.seq) := by
   cases op with
   | connect a b => simp only [step, stepCore] at h; split at h <;> exact Or.inl h
+  | disconnect a b =>
+    simp only [step, stepCore] at h; split at h
+    · simp only [setNode_nodes] at h; split at h
+      · rename_i hx; subst hx; exact Or.inl h
+      · split at h
+        · rename_i hx; subst hx; exact Or.inl h
+        · exact Or.inl h
+    · exact Or.inl h
   | replay a b ord =>
     simp only [step, stepCore] at h; split at h
     · simp only [setNode_nodes] at h; split at h
       · rename_i hx; subst hx; exact Or.inl h
       · exact Or.inl h
     · exact Or.inl h
-  | announce a =>
+  | announce a _ =>
     simp only [step, stepCore] at h; split at h
     · simp only [setNode_nodes] at h; split at h
       · rename_i hx; subst hx; exact Or.inl h
@@ -186,8 +202,8 @@ theorem seen_step {s : Net} {op : Op} {x : Node} {k : Node × Nat} (h : k ∈ ((
     · exact Or.inl h
   | dump => exact Or.inl h
 
-theorem announce_seq (s : Net) (a : Node) (ha : a < s.n) :
-    ((step s (.announce a)).nodes a).seq = (s.nodes a).seq + 1 := by
+theorem announce_seq (s : Net) (a : Node) (hint : List (List RAd)) (ha : a < s.n) :
+    ((step s (.announce a hint)).nodes a).seq = (s.nodes a).seq + (announceAdvs a (s.nodes a) hint).length := by
   simp only [step, stepCore]
   have ha' : a < (tick s).n := ha
   rw [if_pos ha']
@@ -200,7 +216,7 @@ theorem withdraw_seq (s : Net) (a : Node) (hc : a < s.n ∧ (s.nodes a).locals.a
   rw [if_pos hc']
   simp
 
-theorem replay_seq (s : Net) (a b : Node) (ord : List Node) (hc : a < s.n ∧ b < s.n ∧ linked s a b = true) :
+theorem replay_seq (s : Net) (a b : Node) (ord : List RFrame) (hc : a < s.n ∧ b < s.n ∧ linked s a b = true) :
     ((step s (.replay a b ord)).nodes a).seq =
       (s.nodes a).seq + (replayAdvs a b (s.nodes a) ord).length := by
   simp only [step, stepCore]
@@ -214,11 +230,10 @@ theorem seqInv_step {s : Net} {op : Op} (hI : SeqInv s) (hb : benignOp s op = tr
     intro f hf
     cases flight_step hf with
     | old h => exact Nat.le_trans (hI.flight f h) (seq_step_mono s op _)
-    | ann hop ha hd hadv =>
-      rw [hadv, hop]
-      simp only [announceAdv, tick_nodes]
-      rw [announce_seq s f.src ha]
-      exact Nat.le_refl _
+    | ann hint hop ha hd hadv =>
+      have h := mem_announceAdvs hadv
+      rw [h.origin, hop, announce_seq s f.src hint ha]
+      exact h.seq_le
     | fwd a m hm hl ha hb' hd hne hns hself hseen hsb hlim hadv =>
       rw [hadv, fwdAdv_seq, fwdAdv_origin]
       exact Nat.le_trans (hI.flight _ hm) (seq_step_mono s op _)
@@ -229,10 +244,8 @@ theorem seqInv_step {s : Net} {op : Op} (hI : SeqInv s) (hb : benignOp s op = tr
     | rep ord hop ha hb' hl hadv =>
       subst hop
       obtain ⟨ho, _⟩ := benign_replay hb hadv
-      obtain ⟨o, sq, _, h2, hm⟩ := mem_replayAdvs hadv
       rw [ho, replay_seq s f.src f.dst ord ⟨ha, hb', hl⟩]
-      rw [hm]
-      exact h2
+      exact (mem_replayAdvs hadv).seq_le
   seen := by
     intro x o sq h
     rcases seen_step h with h | ⟨f, hf, hk⟩
@@ -248,11 +261,12 @@ theorem seqInv_step {s : Net} {op : Op} (hI : SeqInv s) (hb : benignOp s op = tr
 
 /-! ### the statement -/
 
-/-- At the moment origin `o` announces (sequence number `s` = its counter + 1): no seen cache holds
-    the key `(o, s)`, and every stored copy of a route of `o` has a sequence number below `s`. -/
+/-- At any moment, for origin `o` with sequence counter `c`: no seen cache holds a key `(o, s)` with
+    `s > c` — every number `o` will use for its next announcement(s) is still free — and every stored
+    copy of a route of `o`, anywhere, carries a number `≤ c`, i.e. is older than the next announcement. -/
 def FreshAt (st : Net) (o : Node) : Prop :=
-  (∀ x, (o, (st.nodes o).seq + 1) ∉ (st.nodes x).seen) ∧
-  (∀ x e, e ∈ (st.nodes x).entries → e.origin = o → e.seq < (st.nodes o).seq + 1)
+  (∀ x sq, (st.nodes o).seq < sq → (o, sq) ∉ (st.nodes x).seen) ∧
+  (∀ x e, e ∈ (st.nodes x).entries → e.origin = o → e.seq ≤ (st.nodes o).seq)
 
 def C14_statement : Prop :=
   ∀ (n mh : Nat) (L : Node → List RAd) (ops : List Op) (o : Node), FreshAt (run (init n mh L) ops) o
@@ -262,13 +276,13 @@ theorem C14_partial (n mh : Nat) (L : Node → List RAd) (ops : List Op)
   have hI := run_induction_benign (P := SeqInv) _ ops (seqInv_init n mh L) hb
     (fun s op hI hb => seqInv_step hI hb)
   constructor
-  · intro x h
+  · intro x sq hlt h
     have := hI.seen x o _ h
     omega
   · intro x e he ho
     have := hI.entries x e he
     rw [ho] at this
-    omega
+    exact this
 
 /-! ### why freshness is what matters: handling an announcement that is not older renews the copy -/
 
@@ -410,31 +424,31 @@ def exitAt0 : Node → List RAd := fun x => if x = 0 then [⟨0, 1, 0⟩] else [
 /-- Agent 1 has announced twice (counter 2) when it replays its table to the new peer 2: origin 0's
     routes travel as `(0, 3)`.  Origin 0's next genuine announcement is `(0, 3)` as well. -/
 def collisionOps : List Op := [
-  .connect 0 1, .announce 0, .deliver 0 1 0, .announce 1, .announce 1,
-  .connect 1 2, .replay 1 2 [0], .deliver 1 2 0]
+  .connect 0 1, .announce 0 [], .deliver 0 1 0, .announce 1 [], .announce 1 [],
+  .connect 1 2, .replay 1 2 [], .deliver 1 2 0]
 
 /-- Agent 1 has announced three times: the replay carries `(0, 4)`, above origin 0's counter 2. -/
 def blockOps : List Op := [
-  .connect 0 1, .announce 0, .deliver 0 1 0, .announce 1, .announce 1, .announce 1,
-  .connect 1 2, .replay 1 2 [0], .deliver 1 2 0]
+  .connect 0 1, .announce 0 [], .deliver 0 1 0, .announce 1 [], .announce 1 [], .announce 1 [],
+  .connect 1 2, .replay 1 2 [], .deliver 1 2 0]
 
 theorem collision_witness :
-    ((run (init 3 0 exitAt0) collisionOps).nodes 0).seq + 1 = 3 ∧
+    ((run (init 3 0 exitAt0) collisionOps).nodes 0).seq = 2 ∧
     (0, 3) ∈ ((run (init 3 0 exitAt0) collisionOps).nodes 2).seen := by decide
 
 theorem block_witness :
-    ((run (init 3 0 exitAt0) blockOps).nodes 0).seq + 1 = 3 ∧
+    ((run (init 3 0 exitAt0) blockOps).nodes 0).seq = 2 ∧
     (⟨0, 1, 0, 1, 2, [1, 0], 4, 9⟩ : Entry) ∈ ((run (init 3 0 exitAt0) blockOps).nodes 2).entries := by decide
 
 theorem C14_refuted : ¬ C14_statement := by
   intro h
-  have := (h 3 0 exitAt0 collisionOps 0).1 2
+  have := (h 3 0 exitAt0 collisionOps 0).1 2 3
   rw [collision_witness.1] at this
-  exact this collision_witness.2
+  exact this (by omega) collision_witness.2
 
 /-- The second part fails independently of the first. -/
 theorem C14_refuted_block : ¬ (∀ x e, e ∈ ((run (init 3 0 exitAt0) blockOps).nodes x).entries →
-    e.origin = 0 → e.seq < ((run (init 3 0 exitAt0) blockOps).nodes 0).seq + 1) := by
+    e.origin = 0 → e.seq ≤ ((run (init 3 0 exitAt0) blockOps).nodes 0).seq) := by
   intro h
   have := h 2 _ block_witness.2 rfl
   rw [block_witness.1] at this
@@ -444,8 +458,8 @@ example : benignRun (init 3 0 exitAt0) collisionOps = false := by decide
 
 /-- Vacuity of `C14_partial`: a benign history with several announcements and a duplicate. -/
 def benignOps : List Op := [
-  .connect 0 1, .replay 0 1 [0], .connect 1 2, .announce 0, .deliver 0 1 1, .dup 1 2 0,
-  .announce 0, .deliver 0 1 1, .deliver 1 2 0, .announce 1]
+  .connect 0 1, .replay 0 1 [], .connect 1 2, .announce 0 [], .deliver 0 1 1, .dup 1 2 0,
+  .announce 0 [], .deliver 0 1 1, .deliver 1 2 0, .announce 1 []]
 
 example : benignRun (init 3 0 exitAt0) benignOps = true := by decide
 example : ((run (init 3 0 exitAt0) benignOps).nodes 2).entries.map (·.seq) = [3, 3] := by decide
